@@ -29,9 +29,9 @@ func timeUnix(t int64) time.Time { return time.Unix(t, 0) }
 // fixedClock is the node's (adjusted) time: a constant, so that the "too far in the future" rule is decidable.
 type fixedClock struct{ t int64 }
 
-func (f fixedClock) AdjustedTime() time.Time            { return time.Unix(f.t, 0) }
-func (f fixedClock) AddTimeSample(string, time.Time)    {}
-func (f fixedClock) Offset() time.Duration              { return 0 }
+func (f fixedClock) AdjustedTime() time.Time         { return time.Unix(f.t, 0) }
+func (f fixedClock) AddTimeSample(string, time.Time) {}
+func (f fixedClock) Offset() time.Duration           { return 0 }
 
 // ---------------------------------------------------------------- scenario = deliveries around one candidate
 
